@@ -98,12 +98,75 @@ class SymSet:
         return "SymSet(" + ", ".join(map(repr, self.items)) + ")"
 
 
+class OrderedSet(builtins.set):
+    """A set that iterates in insertion order.  CPython iterates sets of identity-hashed objects in
+    address order, which differs from run to run; re-execution based path exploration needs a
+    deterministic order, and ITER_REVERSED lets a harness run the adversarial (reversed) schedule."""
+
+    ITER_REVERSED = [False]
+
+    def __init__(self, items=()):
+        super().__init__()
+        self._order = {}
+        for x in items:
+            self.add(x)
+
+    def add(self, x):
+        if x not in self:
+            super().add(x)
+            self._order[id(x) if _idhash(x) else x] = x
+
+    def discard(self, x):
+        if x in self:
+            super().discard(x)
+            self._order.pop(id(x) if _idhash(x) else x, None)
+
+    def remove(self, x):
+        if x not in self:
+            raise KeyError(x)
+        self.discard(x)
+
+    def update(self, *others):
+        for o in others:
+            for x in o:
+                self.add(x)
+
+    def clear(self):
+        super().clear()
+        self._order.clear()
+
+    def pop(self):
+        k = next(iter(self._order))
+        x = self._order[k]
+        self.discard(x)
+        return x
+
+    def __iter__(self):
+        vals = list(self._order.values())
+        return iter(reversed(vals) if self.ITER_REVERSED[0] else vals)
+
+    def copy(self):
+        return OrderedSet(self)
+
+    def __reduce__(self):
+        return (OrderedSet, (list(self._order.values()),))
+
+    def __deepcopy__(self, memo):
+        import copy as _c
+
+        return OrderedSet(_c.deepcopy(list(self._order.values()), memo))
+
+
+def _idhash(x):
+    return type(x).__hash__ is object.__hash__
+
+
 def set_(items=()):
     CALLS[0] += 1
     items = list(items)
     if any(isinstance(x, (SReal, SBool)) and is_symbolic(x) for x in items):
         return SymSet(items)
-    return builtins.set(items)
+    return OrderedSet(items)
 
 
 def range_(*a):
